@@ -3,6 +3,7 @@ import NgoVerif.Syntax
 import NgoVerif.Proofs.C09link
 import NgoVerif.Proofs.C11check
 import NgoVerif.Proofs.C16stm
+import NgoVerif.Proofs.C05sem
 /-!
 # Driver ops that evaluate the *side conditions of the end-to-end theorems* on what the real passes did
 
@@ -13,6 +14,7 @@ import NgoVerif.Proofs.C16stm
 * `(sem_split_cond <rule> <aux rule> <updated rule> <context program>)` → `(ok <splitCheck> <ctxCheck> <aux rule> <updated rule>)`:
   `Proofs.C16stm.splitCheck` / `ctxCheck` for the split `projection` made of `<rule>`; the two rules the theorem speaks about
   are returned and compared by the harness with what the real pass emitted.
+* `(sem_okstm <stm>)` → `(ok <okBody>)`: the hypothesis of the `_partial` theorems about `expand_comparisons`.
 * `(sem_unused_cond <prog> "n" k)` → `(ok <every statement stmOk> <Unused n k prog>)`: the hypothesis of
   `C09_removal_sound/complete` for the program `unused` removed the rules of `n/k` from.
 The checks are the executable definitions `Proofs.C11check.symCheck` and `Proofs.C09sem.unusedCheck`, whose answer `true`
@@ -48,6 +50,13 @@ def handleSem : Sexp → Option Sexp
     some <| match Prog.ofSexp p, k.toNat? with
       | some prg, some k => .list [.atom "ok", ofBool (prg.all fun s => Proofs.C09link.stmOk s), ofBool (Proofs.C09sem.unusedCheck n k prg)]
       | _, _ => .list [.atom "unsupported", .str "program"]
+  | .list [.atom "sem_okstm", s] =>
+    -- the hypothesis of `C05_expand_comparisons_strongeq_partial` (no negated multi-guard comparison) for one statement
+    some <| match Stm.ofSexp s with
+      | some (.rule _ _ _ b) => .list [.atom "ok", ofBool (Proofs.C05sem.okBody b)]
+      | some (.minimize _ _ _ _ _ b) => .list [.atom "ok", ofBool (Proofs.C05sem.okBody b)]
+      | some _ => .list [.atom "ok", ofBool true]
+      | none => .list [.atom "unsupported", .str "statement"]
   | .list [.atom "sem_split_cond", o, a, u, p] =>
     some <| match Stm.ofSexp o, Stm.ofSexp a, Stm.ofSexp u, Prog.ofSexp p with
       | some (.rule l c h body), some (.rule _ _ (.lit (.pos, .sym (.fn auxName args false))) new), some (.rule _ _ _ ubody),
